@@ -263,7 +263,7 @@ var profC10 = Profile{
 
 func init() {
 	Register(&Check{ID: "C10", Level: "exploration",
-		Rule: "one case = one generated workflow (multi-input, multi-output, fan-in/out, parameters, MapToTags taggers, StreamToSubStream + joined in-ports, Go-function tasks, Process.Prepend launchers, empty outputs) under one tape-chosen schedule. For EVERY finalized output the audit file is parsed (strict JSON decoding into the record type) and compared field by field, recursively down to the source files, with the lineage tree of the independent reference: ProcessName, Params, OutFiles, Upstream keys, inherited tags (superset; extras only from taggers), Command = every word the simulated shell actually received (launcher included), StartTime<=FinishTime, duration>=0. Round 5: the record on disk of every file that passed a tagging component holds the tag; sibling outputs of one task tagged alike. Round 6: stale longer audit files at output paths; the audit file is ONE JSON document; per-cent signs on command lines; duration = finish - start, interval contains the execution. distinct = event-log hash; non-trivial = >=2 tasks and >=1 non-default choice",
+		Rule: "one case = one generated workflow (multi-input, multi-output, fan-in/out, parameters, MapToTags taggers, StreamToSubStream + joined in-ports, Go-function tasks, Process.Prepend launchers, empty outputs) under one tape-chosen schedule. For EVERY finalized output the audit file is parsed (strict JSON decoding into the record type) and compared field by field, recursively down to the source files, with the lineage tree of the independent reference: ProcessName, Params, OutFiles, Upstream keys, inherited tags (superset; extras only from taggers), Command = every word the simulated shell actually received (launcher included), StartTime<=FinishTime, duration>=0. Round 5: the record on disk of every file that passed a tagging component holds the tag; sibling outputs of one task tagged alike. Round 6: stale longer audit files at output paths; the audit file is ONE JSON document; per-cent signs on command lines; duration = finish - start, interval contains the execution. Round 7: parameters that are not on the command line; the sibling of a tagger on an idle machine. distinct = event-log hash; non-trivial = >=2 tasks and >=1 non-default choice",
 		Run: func(c *Case) Verdict {
 			switch c.Tape.Choose(simrt.StGen, 8, 0) {
 			case 1:
@@ -582,7 +582,7 @@ func jsonEqual(a, b any) bool {
 
 func init() {
 	Register(&Check{ID: "C11", Level: "fault_enumeration",
-		Rule: "one case = one generated workflow and one of three ways, tape-chosen, of splitting its execution over several incarnations on one persistent fs: (a) RunTo(tape-chosen prefix targets) then Run; (b) for the sampled schedule EVERY distinct crash state: kill there, cleanup, re-run (states in which the re-run does not complete are C03's business and skipped here); (c) complete run, delete a tape-chosen set of outputs with their audit files, re-run; (d) up to four further rounds of (c) inside ONE simulated process, library globals not re-initialised. Oracle after each history: every output's audit file equals the reference lineage (= the uninterrupted result: process, command, parameters, tags, output paths of every ancestor, recursively), and every nested ancestor record whose audit file was on disk before the resuming incarnation is identical (ids, time stamps and all) to that file - which exercises scipipe's own write -> read -> embed -> write path. Round 5: at the end of each history the record on disk of every tagged file holds the tag. Round 6: one case in twelve is a program with two workflows built up front and run in sequence (the second reads the first one's tagged files through a FileSource), split by RunTo or a kill. distinct = event-log hash of the history; non-trivial = >=2 tasks, >=1 non-default choice",
+		Rule: "one case = one generated workflow and one of three ways, tape-chosen, of splitting its execution over several incarnations on one persistent fs: (a) RunTo(tape-chosen prefix targets) then Run; (b) for the sampled schedule EVERY distinct crash state: kill there, cleanup, re-run (states in which the re-run does not complete are C03's business and skipped here); (c) complete run, delete a tape-chosen set of outputs with their audit files, re-run; (d) up to four further rounds of (c) inside ONE simulated process, library globals not re-initialised. Oracle after each history: every output's audit file equals the reference lineage (= the uninterrupted result: process, command, parameters, tags, output paths of every ancestor, recursively), and every nested ancestor record whose audit file was on disk before the resuming incarnation is identical (ids, time stamps and all) to that file - which exercises scipipe's own write -> read -> embed -> write path. Round 5: at the end of each history the record on disk of every tagged file holds the tag. Round 6: one case in twelve is a program with two workflows built up front and run in sequence (the second reads the first one's tagged files through a FileSource), split by RunTo or a kill. Round 7: tags embedded in descendants vs the ancestor file in every crash state of the tagger histories. distinct = event-log hash of the history; non-trivial = >=2 tasks, >=1 non-default choice",
 		Run: func(c *Case) Verdict {
 			if c.Tape.Choose(simrt.StGen, 12, 0) == 1 {
 				return stagedCase(c)
